@@ -2350,7 +2350,10 @@ class Slur(TimedObject):
         self.start_note = start_note
         self.end_note = end_note
         # maintain a list of attributes to update when cloning this instance
-        self._ref_attrs.extend(["start_note", "end_note"])
+        # (the backing fields: assigning through the properties would register
+        # the clone with the notes a second time and deregister it from its
+        # time points)
+        self._ref_attrs.extend(["_start_note", "_end_note"])
 
     @property
     def start_note(self):
@@ -2427,7 +2430,10 @@ class Tuplet(TimedObject):
         self.actual_type = actual_type
         self.normal_type = normal_type
         # maintain a list of attributes to update when cloning this instance
-        self._ref_attrs.extend(["start_note", "end_note"])
+        # (the backing fields: assigning through the properties would register
+        # the clone with the notes a second time and deregister it from its
+        # time points)
+        self._ref_attrs.extend(["_start_note", "_end_note"])
 
     @property
     def start_note(self):
